@@ -43,6 +43,14 @@ CLAIMED = {
             "guarded; AES-KW/GCM-KW/dir exact-size and RSA>=2048 gates dominate the primitives; the PEM/SSH unsafe-secret warning is on "
             "every path. The key-type gate is audit-only (every mismatch already fails inside the primitive).",
             "primitives fail for keys of the wrong type; frozen tables jv/spec/tables.py", "5/C06"),
+    "C17": ("static analysis: disallowed-API / bounded-call rule over every inflate call (typed receivers), constant folding of the bound, "
+            "CFG must-pass-through of a completion gate between the bounded call and the return, barrier slice of the decompress argument",
+            "Decides: every inflate call carries max_length folding to <= 256000 and no one-shot decompress exists; on every path from the "
+            "bounded call to the return of its (unsliced) result a raise of ExceededSizeError is guarded by eof or by a second pull on the same "
+            "object (unconsumed_tail alone is insufficient - witness 256001 x 'a'); compression emits raw DEFLATE and the zlib-framed inflater "
+            "is chosen only for inputs starting with the zlib header; only the output of enc.decrypt is decompressed. Not decided: value-level "
+            "round trip up to the limit (zlib reaches eof exactly at the limit: probed, trusted).",
+            "zlib honours max_length and eof", "5/C17"),
 }
 
 NOT_YET = "check not built yet (build in progress; see DESIGN.md section 5 for the planned rules)"
